@@ -128,6 +128,9 @@ MergeOps(toks, pool) ==        \* pool: <<>> or <<operator token>>
             ELSE MergeOps(Tail(toks), <<t>>)
 
 VarsOf(toks) == FlatMap(LAMBDA t : t.vars, toks)
+\* every operator token split after each occurrence of sym (Token.split(sym, after=True))
+SplitToks(toks, sym) ==
+  FlatMap(LAMBDA t : IF t.k = "op" THEN LET ps == SplitAfter(t.cs, sym, <<>>) IN [j \in DOMAIN ps |-> OpTok(ps[j])] ELSE <<t>>, toks)
 
 \* DOC: the variables used on the left-hand side are recorded whether or not an intercept
 \* is inserted (the pinned code recorded them only when it inserted intercepts, so `.`
@@ -135,8 +138,9 @@ VarsOf(toks) == FlatMap(LAMBDA t : t.vars, toks)
 Rewrite(cfg, toks0) ==
   LET t1 == ReplaceZero(toks0) IN
   IF ~cfg.intercept
-  THEN LET r0 == FindTilde(t1, 1, <<>>) IN
-       [toks |-> MergeOps(t1, <<>>), lhsvars |-> VarsOf(SubSeq(t1, 1, r0))]
+  THEN LET sp == SplitToks(t1, "~")
+            r0 == FindTilde(sp, 1, <<>>) IN
+       [toks |-> MergeOps(t1, <<>>), lhsvars |-> VarsOf(SubSeq(sp, 1, r0))]
   ELSE LET t2 == InsertAfter(t1, 1, "~")
            r  == FindTilde(t2, 1, <<>>)
            head == IF r > 0 THEN SubSeq(t2, 1, r) ELSE IF t2 # <<>> THEN <<One, Plus>> ELSE <<One>>
